@@ -591,6 +591,14 @@ type scenario struct {
 
 func runScenario(r *vh.Rng, maxLen int, script *scriptT) *scenario {
 	sc := &scenario{kinds: map[string]int{}}
+	began := time.Now()
+	// the real handshake timers (10 s and more) must never expire by themselves during a scenario:
+	// a run that took longer than 7 s without a recorded hang (machine under heavy load) is discarded
+	defer func() {
+		if sc.outcome == "" && time.Since(began) > 7*time.Second {
+			sc.discarded = true
+		}
+	}()
 	env := &scenEnv{left: -1}
 	role := ship.ShipRoleServer
 	sc.role = "Server"
